@@ -98,6 +98,55 @@ func TestVerif_C16(t *testing.T) {
 			mu.Lock()
 			processor, headerInfo = nil, nil
 			mu.Unlock()
+			// deterministic reconnect probe (no free-running requesters yet): one request right after
+			// frame N of a connection, a reconnect, one request right after frame N of the next
+			// connection - the second must return ITS connection's frame N
+			for n := 1; n <= 4; n++ {
+				var got [2]int
+				var want [2]int
+				for k := 0; k < 2; k++ {
+					rp, err := prepareConn(scratch, cfg, cam)
+					if err != nil {
+						c.Inconclusive("prepareConn: " + err.Error())
+						return
+					}
+					pframes := []*pFrame{}
+					for i := 0; i < 6; i++ {
+						pframes = append(pframes, &pFrame{Seq: 40000 + 100*n + 10*k + i, TimeOnMS: timeOnFor(40000 + 100*n + 10*k + i), FPATempCK: 30000, FPAFFCCK: 30000,
+							Pix: newPix(cam.ResX, cam.ResY, uniformValue(40000+100*n+10*k+i))})
+					}
+					want[k] = pframes[n-1].Seq
+					got[k] = -1
+					processed := 0
+					rp.serve(pacedFeed(cam, pframes, 0), func(name string) {
+						if name != "conn.frame.processed" {
+							return
+						}
+						processed++
+						if processed == n {
+							done := make(chan struct{})
+							go func() {
+								defer close(done)
+								if f, derr := (&service{}).TakeSnapshot(-1); derr == nil && f != nil {
+									got[k] = seqOfUniform(f.Pix[0][0])
+								}
+							}()
+							<-done
+						}
+					})
+					rp.cleanup()
+				}
+				for k := 0; k < 2; k++ {
+					if got[k] != want[k] {
+						c.Violation("snapshot-stale", "reconnect probe", fmt.Sprintf("request right after frame %d of connection %d returned frame %d, expected frame %d (connection 0 was served frame %d at the same frame count)", n, k, got[k], want[k], got[0]))
+						return
+					}
+				}
+				c.Count("reconnect_probes", 1)
+			}
+			mu.Lock()
+			processor, headerInfo = nil, nil
+			mu.Unlock()
 			lg := &c16Log{}
 			var reqMu sync.Mutex
 			var reqs []c16Req
